@@ -268,6 +268,8 @@ for _k in ('C01', 'C02', 'C08', 'C14', 'C15', 'C16'):
     TIES[_k] = TIES[_k] + ['TieSource' + _k]
 for _k in ('C01', 'C02', 'C09', 'C12', 'C17', 'C08', 'C10'):
     TIES[_k] = TIES.get(_k, []) + ['TieStore']
+for _k in ('C12', 'C13', 'C17', 'C08'):
+    TIES[_k] = TIES.get(_k, []) + ['TieKeys']
 for _k, _v in TIES.items():
     PROPS[_k]["ties"] = _v
 
